@@ -28,7 +28,20 @@ var bom = []byte{0xEF, 0xBB, 0xBF}
 
 func pick[T any](rng *rand.Rand, xs []T) T { return xs[rng.Intn(len(xs))] }
 
-func jq(s string) string { b, _ := json.Marshal(s); return string(b) }
+// jq renders s as a JSON string (a valid YAML double-quoted scalar); DEL and C1 controls, which
+// YAML does not allow unescaped, are escaped as well.
+func jq(s string) string {
+	b, _ := json.Marshal(s)
+	var o strings.Builder
+	for _, r := range string(b) {
+		if r == 0x7f || (r >= 0x80 && r <= 0x9f) {
+			fmt.Fprintf(&o, "\\u%04x", r)
+		} else {
+			o.WriteRune(r)
+		}
+	}
+	return o.String()
+}
 
 // ---------------------------------------------------------------- strings
 
@@ -36,7 +49,7 @@ var stringPool = []string{
 	"plain text", "héllo wörld", "日本語のチャート", "emoji 🚀 rocket", "line one\nline two\n", "  leading and trailing  ",
 	"colon: and # hash", "\"double\" and 'single' quotes", "null", "true", "1.0", "0x1F", "~", "- dash start", "@at", "`tick`",
 	"{brace}", "[bracket]", "%percent", "!bang", "&anchor", "*star", "|pipe", ">gt", "back\\slash", "tab\there", "nbsp\u00a0inside",
-	"line\u2028separator", "next\u0085line", "zero\u200bwidth", "bom\ufeffinside", "nfd e\u0301", "nfc \u00e9", "ctl\u0001char", "del\u007fchar",
+	"line\u2028separator", "para\u2029separator", "zero\u200bwidth", "bom\ufeffinside", "nfd e\u0301", "nfc \u00e9", "rtl \u202eoverride",
 	"crlf\r\nending", strings.Repeat("long-", 70), "", "😀", "a", "Ünïcödé", "https://example.com/a?b=c&d=e#f", "yes", "012", "1e3", "+1", ".5",
 }
 
@@ -465,10 +478,15 @@ func genChart(rng *rand.Rand, depth int, used map[string]bool) *node {
 		if reservedTop[strings.SplitN(p, "/", 2)[0]] {
 			continue
 		}
+		if strings.HasPrefix(p, "..") && (depth > 0 || rng.Intn(4) > 0) {
+			// a ROOT-level name starting with ".." is kept rare and only in the top chart (cause shape
+			// "archive loader rejects names that merely start with '..'"); nested ones are common
+			continue
+		}
 		d, c := genContent(rng)
 		add(n.Files, n.Class, p, d, c)
 	}
-	if len(n.Deps) > 0 && rng.Intn(6) == 0 { // provenance files next to vendored archives are ordinary files
+	if len(n.Deps) > 0 && (depth == 0 && rng.Intn(6) == 0 || depth > 0 && rng.Intn(40) == 0) { // provenance files next to vendored archives are ordinary files
 		d := n.Deps[0]
 		add(n.Files, n.Class, "charts/"+d.Name+"-"+d.Version+".tgz.prov", []byte("-----BEGIN PGP SIGNED MESSAGE-----\nfake\n"), "text")
 	}
